@@ -1,0 +1,17 @@
+//go:build verif
+// +build verif
+
+package bundler
+
+import (
+	"github.com/evanw/esbuild/internal/config"
+	"github.com/evanw/esbuild/internal/fs"
+	"github.com/evanw/esbuild/internal/graph"
+)
+
+// Thin wrapper (no logic) used by the verification harness in /verif (C19):
+// generateMetadataJSON on a bundle without input files.
+func VerifGenerateMetadataJSON(fileSystem fs.FS, results []graph.OutputFile, options *config.Options) string {
+	b := &Bundle{fs: fileSystem, options: *options}
+	return b.generateMetadataJSON(results, nil, options)
+}
